@@ -21,6 +21,10 @@ pub struct Case {
     /// selects equivalence classes when the file is too large for the complete alphabet
     pub picks: Vec<u16>,
     pub probes: Vec<Probe>,
+    /// an arbitrary history (failed seeks, runs of next/prev to the ends, ...) executed, unjudged, on a cursor that is
+    /// then `reset()`: a reset cursor must answer like a fresh one whatever happened before
+    #[serde(default)]
+    pub pre: Vec<crate::model::Op>,
 }
 
 pub const COMPLETE_UP_TO: usize = 150;
@@ -86,8 +90,8 @@ impl Prop for C02 {
     }
 
     fn stages(&self, tier: Tier) -> Vec<Stage<Case>> {
-        let s = (gen::file_spec(tier), vec(any::<u16>(), 300), vec(gen::probe(), 50))
-            .prop_map(|(spec, picks, probes)| Case { spec, picks, probes });
+        let s = (gen::file_spec(tier), vec(any::<u16>(), 300), vec(gen::probe(), 50), gen::history(80))
+            .prop_map(|(spec, picks, probes, pre)| Case { spec, picks, probes, pre });
         vec![stage("files", s, tier.pick(1500, 15_000)).shrink(800)]
     }
 
@@ -124,6 +128,50 @@ impl Prop for C02 {
         let mut mk = || rd::guard("into_cursor", || reader.clone().into_cursor());
         for q in &qs {
             check_seeks(&mut mk, &mut long_lived, &m, &entries, q, "c02")?;
+        }
+        // reset after an arbitrary history
+        if !case.pre.is_empty() {
+            let mut c = rd::guard("into_cursor", || reader.clone().into_cursor())?;
+            for (round, chunk) in case.pre.chunks(20).enumerate() {
+                for op in chunk {
+                    use crate::model::Op;
+                    let cop = match op {
+                        Op::First => COp::First,
+                        Op::Last => COp::Last,
+                        Op::Next => COp::Next,
+                        Op::Prev => COp::Prev,
+                        Op::Ge(p) => COp::Ge(p.bytes(&entries)),
+                        Op::Le(p) => COp::Le(p.bytes(&entries)),
+                        Op::Eq(p) => COp::Eq(p.bytes(&entries)),
+                        Op::Reset => COp::Reset,
+                        Op::Current | Op::CloneSwitch | Op::Swap => continue,
+                    };
+                    rd::apply(&mut c, &cop)?;
+                }
+                // run to the end as well: states "past the end" are the interesting ones
+                if round % 2 == 0 {
+                    for _ in 0..entries.len().min(64) + 1 {
+                        if rd::apply(&mut c, &COp::Next)?.is_none() {
+                            break;
+                        }
+                    }
+                }
+                for q in qs.iter().skip(round * 7).step_by(qs.len() / 6 + 1) {
+                    for op in [COp::Ge(q.clone()), COp::Le(q.clone()), COp::Eq(q.clone())] {
+                        c.reset();
+                        let want = rd::model_abs(&m, &op).map(|i| entries[i].clone());
+                        let got = rd::apply(&mut c, &op)?;
+                        if got != want {
+                            fail!(
+                                format!("c02:reset-after-history:{}", &op.show()[..2]),
+                                "a cursor that was used (history of {} operations) and then reset: {} on {} entries returned {} but the model says {}",
+                                case.pre.len(), op.show(), entries.len(), rd::show(&got), rd::show(&want)
+                            );
+                        }
+                        obs.add("seeks_after_history_and_reset", 1);
+                    }
+                }
+            }
         }
         let d = layout_classes(&case.spec, &bytes, entries.len(), obs);
         if complete {
